@@ -1992,9 +1992,18 @@ fn setup_open_file_with_contents(contents: &str) -> Result<OpenFile, error::Erro
     {
         use std::os::fd::AsFd as _;
 
-        let len = i32::try_from(bytes.len())
-            .map_err(|_err| error::Error::from(error::ErrorKind::TooMuchData))?;
-        nix::fcntl::fcntl(reader.as_fd(), nix::fcntl::FcntlArg::F_SETPIPE_SZ(len))?;
+        // The pipe cannot always be made large enough to hold the contents (the system limits the
+        // size of a pipe); in that case feed it from a thread while the command reads it.
+        let enlarged = i32::try_from(bytes.len()).is_ok_and(|len| {
+            nix::fcntl::fcntl(reader.as_fd(), nix::fcntl::FcntlArg::F_SETPIPE_SZ(len)).is_ok()
+        });
+        if !enlarged {
+            let bytes = bytes.to_vec();
+            std::thread::spawn(move || {
+                let _ = writer.write_all(&bytes);
+            });
+            return Ok(reader.into());
+        }
     }
 
     writer.write_all(bytes)?;
